@@ -182,7 +182,7 @@ func runGenerated(c *core.Case) {
 		c.Count("generator.no-descriptor", 1)
 		return
 	}
-	f := &ptypes.Filler{R: c.Rng.Fork(2), NoNaN: true}
+	f := &ptypes.Filler{R: c.Rng.Fork(2), NoNaN: true, NoNilMapValues: true}
 	for k := 0; k < 2; k++ {
 		checkBothWays(c, "generated", t, md, f.NewValue(t))
 	}
